@@ -163,7 +163,12 @@ def _task_inner(args):
     pid, verif_seed, tier, index = args
     prop = load_prop(pid)
     seed = rngmod.run_seed(pid, verif_seed, index)
-    run = prop.generate(rngmod.Rng(seed), tier)
+    try:
+        run = prop.generate(rngmod.Rng(seed), tier)
+    except Exception as e:  # noqa: BLE001 - generator bug, never a VIOLATION
+        return {'violations': [], 'index': index, 'seed': seed,
+                'harness_error': f'generate: {type(e).__name__}: {e}\n'
+                + traceback.format_exc(limit=8)}
     run['seed'] = seed
     run['index'] = index
     res = execute_run(prop, run, prop.RUN_TIMEOUT)
